@@ -4,6 +4,7 @@ package main
 import (
 	"sync"
 	"sync/atomic"
+	"unsafe"
 )
 
 type pair struct{ a, b int64 }
@@ -217,10 +218,88 @@ func atomics(n, m int) {
 	println("atomicptr:", ptr.Load() == nil, ptr.CompareAndSwap(nil, pp), ptr.Load() == pp, ptr.Load().b)
 }
 
+// Store-buffering (Dekker) litmus: with sequentially consistent atomics the outcome
+// "both loads saw the initial value" is impossible, for every operand kind.
+func dekker(rounds int) {
+	var xi, yi int64
+	var xu, yu uint32
+	var xp, yp unsafe.Pointer
+	var xg, yg atomic.Pointer[pair]
+	one := &pair{1, 1}
+	var go1, go2, done int32
+	var r [8]int64 // results of worker 1 (even) and worker 2 (odd) per kind
+	bad := [4]int64{}
+	worker := func(start *int32, self int) {
+		for i := 1; i <= rounds; i++ {
+			for atomic.LoadInt32(start) != int32(i) {
+			}
+			if self == 0 {
+				atomic.StoreInt64(&xi, 1)
+				r[0] = atomic.LoadInt64(&yi)
+				atomic.StoreUint32(&xu, 1)
+				r[2] = int64(atomic.LoadUint32(&yu))
+				atomic.StorePointer(&xp, unsafe.Pointer(one))
+				if atomic.LoadPointer(&yp) != nil {
+					r[4] = 1
+				} else {
+					r[4] = 0
+				}
+				xg.Store(one)
+				if yg.Load() != nil {
+					r[6] = 1
+				} else {
+					r[6] = 0
+				}
+			} else {
+				atomic.StoreInt64(&yi, 1)
+				r[1] = atomic.LoadInt64(&xi)
+				atomic.StoreUint32(&yu, 1)
+				r[3] = int64(atomic.LoadUint32(&xu))
+				atomic.StorePointer(&yp, unsafe.Pointer(one))
+				if atomic.LoadPointer(&xp) != nil {
+					r[5] = 1
+				} else {
+					r[5] = 0
+				}
+				yg.Store(one)
+				if xg.Load() != nil {
+					r[7] = 1
+				} else {
+					r[7] = 0
+				}
+			}
+			atomic.AddInt32(&done, 1)
+		}
+	}
+	go worker(&go1, 0)
+	go worker(&go2, 1)
+	for i := 1; i <= rounds; i++ {
+		atomic.StoreInt64(&xi, 0)
+		atomic.StoreInt64(&yi, 0)
+		atomic.StoreUint32(&xu, 0)
+		atomic.StoreUint32(&yu, 0)
+		atomic.StorePointer(&xp, nil)
+		atomic.StorePointer(&yp, nil)
+		xg.Store(nil)
+		yg.Store(nil)
+		atomic.StoreInt32(&done, 0)
+		atomic.StoreInt32(&go1, int32(i))
+		atomic.StoreInt32(&go2, int32(i))
+		for atomic.LoadInt32(&done) != 2 {
+		}
+		for k := 0; k < 4; k++ {
+			if r[2*k] == 0 && r[2*k+1] == 0 {
+				bad[k]++
+			}
+		}
+	}
+	println("dekker:", bad[0], bad[1], bad[2], bad[3])
+}
+
 func chans(producers, consumers, items int) {
 	ch := make(chan int, 3)
 	un := make(chan int)
-	var wg, cw sync.WaitGroup
+	var cw sync.WaitGroup
 	var sum int64
 	for c := 0; c < consumers; c++ {
 		cw.Add(1)
@@ -246,7 +325,7 @@ func chans(producers, consumers, items int) {
 			}
 		}()
 	}
-	_ = wg
+
 	var pw sync.WaitGroup
 	for p := 0; p < producers; p++ {
 		pw.Add(1)
@@ -278,5 +357,6 @@ func main() {
 	atomics(8, 400)
 	mutexCounter(64, 40)
 	chans(3, 2, 40)
+	dekker(60000)
 	println("done")
 }
